@@ -273,3 +273,60 @@ def r7_accumulate(ctx):
 
 
 RULES += [r7_accumulate]
+
+
+def r8_boundary_at_exit(ctx):
+    ctx.rule("C18.r8", "backward kill/gen fixpoint: the boundary value (analysis.entry(): the function outputs are live) is given to the "
+             "EXIT block of the CFG, not to whichever block comes first in the iteration order", floor=1)
+    fs = ctx.db.fns(KG, name="run_bwd_fixpo")
+    if not ctx.need(fs, "killgen run_bwd_fixpo"):
+        return
+    for fn in fs:
+        body = fn["body"]
+        d = local_decls(body)
+        conds = [x for x in walk(body) if x.get("k") == "cond" and is_call(strip_move(x.get("t")), name="entry")]
+        if len(conds) != 1:
+            ctx.undecided("run_bwd_fixpo: the selection of the boundary value (`cond ? analysis.entry() : bottom`) was not found", fn, body)
+            continue
+        c = conds[0]
+
+        def ev(e, env, depth=0):
+            e = strip(resolve_local(body, e, d))
+            if not isinstance(e, dict) or depth > 8:
+                return None
+            if e.get("k") == "cond":
+                t = ev(e.get("c"), env, depth + 1)
+                if t is None:
+                    return None
+                return ev(e.get("t") if t else e.get("e"), env, depth + 1)
+            if e.get("k") == "un" and e.get("op") == "!":
+                r = ev(e.get("e"), env, depth + 1)
+                return None if r is None else (not r)
+            if e.get("k") == "bin" and e.get("op") in ("&&", "||"):
+                a, b = ev(e.get("L"), env, depth + 1), ev(e.get("R"), env, depth + 1)
+                if e["op"] == "&&":
+                    return False if (a is False or b is False) else (True if (a and b) else None)
+                return True if (a is True or b is True) else (False if (a is False and b is False) else None)
+            if is_call(e, name="has_exit"):
+                return env["has_exit"]
+            pp = cmp_parts(e)
+            if pp and pp[0] == "==":
+                if any(is_call(y, name="exit") for y in walk(e)):
+                    return env["is_exit"]
+                if any(isinstance(strip(z), dict) and strip(z).get("k") == "lit" and strip(z).get("v") == "0" for z in (pp[1], pp[2])):
+                    return env["first"]
+            return None
+        r1 = ev(c.get("c"), {"has_exit": True, "is_exit": True, "first": False})
+        r2 = ev(c.get("c"), {"has_exit": True, "is_exit": False, "first": True})
+        if r1 is True and r2 is False:
+            ctx.ok("boundary value given to m_cfg.exit()", fn, c)
+        elif r1 is None or r2 is None:
+            ctx.undecided("run_bwd_fixpo: cannot evaluate the boundary condition `%s`" % src(c.get("c"))[:60], fn, c)
+        else:
+            ctx.bad("run_bwd_fixpo gives the boundary value under `%s`, i.e. to the first block of the iteration order even when that is not "
+                    "the exit block (a sink block that does not reach the exit sorts first): nothing is live at the end of the real exit "
+                    "block and DCE removes assignments to function outputs" % src(resolve_local(body, c.get("c"), d))[:60], fn, c,
+                    sig="boundary-not-at-exit")
+
+
+RULES += [r8_boundary_at_exit]
